@@ -309,12 +309,13 @@ def do_check(check_id, tier, seed):
     try:
         for phase in cfg["phases"](tier):
             p0 = time.time()
+            e0 = agg["evaluations"]
             if phase.get("kind") == "python":
                 phase["fn"](cfg, tier, seed, work, agg)
             else:
                 run_phase(cfg, check, tier, seed, work, phase, agg)
             agg["phases"].append({"name": phase["name"], "profile": phase.get("profile", "python"),
-                                  "wall_s": round(time.time() - p0, 1)})
+                                  "evaluations": agg["evaluations"] - e0, "wall_s": round(time.time() - p0, 1)})
         return finish(cfg, tier, seed, agg, time.time() - t0)
     finally:
         shutil.rmtree(work, ignore_errors=True)
